@@ -1,7 +1,7 @@
 """C08 block_split: every point gets the label of the block that contains it."""
 import random
 import numpy as np
-from . import core
+from . import core, layouts
 from .core import Case, cZ, cD, clist, cbool, copt
 
 ID = "C08"
@@ -13,7 +13,11 @@ RULE = ("point clouds (1-D and 2-D arrays, optionally with an ignored third coor
         "or as shapes incl. single row / single column / one block; streams: random interior points, clusters hugging one block, "
         "points placed exactly on shared block edges and corners (either neighbour accepted, never a non-adjacent block), points "
         "outside the region on every side and diagonal (nearest border block demanded), degenerate and invalid arguments. "
-        "Non-trivial = the call returns labels for a non-empty cloud; distinct = distinct argument tuples. Points within 2^-30 x scale "
+        "2-D inputs (and the extra coordinate) come in varied memory layouts with the same logical element sequence - C, Fortran-ordered "
+        "copies, transposed views of transposed copies, strided windows of larger C / Fortran arrays, slices of transposed views, easting "
+        "and northing with different layouts, non-square shapes - and integer-valued lattice clouds also as int64 / int32 arrays; the model "
+        "always receives the logical C-order ravel. Every call is made twice on the same argument objects (identical result, arguments "
+        "unchanged). Non-trivial = the call returns labels for a non-empty cloud; distinct = distinct argument tuples. Points within 2^-30 x scale "
         "of a shared edge are excluded point-wise from the label equality (the statement is still evaluated on them); cases whose "
         "extent/spacing quotient is within 2^-30 of a rounding tie without being one are skipped.")
 ASSUMPTIONS = [
@@ -21,7 +25,7 @@ ASSUMPTIONS = [
     "floats are read as the exact rationals they denote; centres compared with tolerance 2^-40 x scale; labels compared exactly for points farther than 2^-30 x scale from every shared block edge",
     "coordinate arrays are passed raveled (C order); their common shape is checked by the harness (labels must be 1-D with one entry per point)",
 ]
-TRUSTED = ["harness/c08.py (generators, observation of numpy arrays as exact dyadics and integers)"]
+TRUSTED = ["harness/layouts.py (builds the argument arrays in each memory layout / dtype; replays rebuild them from the same source)", "harness/c08.py (generators, observation of numpy arrays as exact dyadics and integers)"]
 
 ADJ = {0: "spacing", 1: "region", 2: "bogus"}
 
@@ -30,8 +34,10 @@ def dl(xs):
     return clist([cD(float(x)) for x in xs])
 
 
-def block_case(vd, coords, spacing, adj, region, shape, kind):
-    coords = tuple(np.asarray(c, dtype=float) for c in coords)
+def block_case(vd, spec, spacing, adj, region, shape, kind):
+    """spec: [(values, layout, dtype), ...] (harness/layouts.py); the model gets the logical C-order ravel"""
+    coords = layouts.build(spec)
+    snap = layouts.snapshot(coords)
     east, north = coords[0], coords[1]
     kw = {}
     if spacing is not None:
@@ -49,13 +55,18 @@ def block_case(vd, coords, spacing, adj, region, shape, kind):
         shape_ok = (len(bc) == 2 and bc[0].ndim == 1 and bc[1].ndim == 1 and labels.ndim == 1
                     and labels.shape[0] == east.size and np.issubdtype(labels.dtype, np.integer)
                     and bc[0].dtype == np.float64 and bc[1].dtype == np.float64)
+        # same argument objects again: identical result, arguments untouched
+        bc2, labels2 = vd.block_split(coords, **kw)
+        stable = (layouts.unchanged(coords, snap) and np.array_equal(np.asarray(labels2), labels)
+                  and all(np.array_equal(a, b) for a, b in zip(bc, bc2)))
         if shape_ok:
             obs = {"centres_east": [float(x) for x in bc[0]], "centres_north": [float(x) for x in bc[1]],
-                   "labels": [int(x) for x in labels]}
+                   "labels": [int(x) for x in labels], "second_call_identical_and_arguments_unchanged": bool(stable)}
             cobs = "(Some (%s, %s, %s))" % (dl(bc[0]), dl(bc[1]), clist([cZ(x) for x in labels]))
         else:
             obs = {"bad_output_shapes": [list(np.shape(b)) for b in bc] + [list(labels.shape), str(labels.dtype)]}
             cobs = "(Some ([], [], []))"
+        shape_ok = shape_ok and bool(stable)
     except ValueError:
         obs = "ValueError"
         cobs = "None"
@@ -67,10 +78,9 @@ def block_case(vd, coords, spacing, adj, region, shape, kind):
         csp = "(Some %s)" % dl(spacing)
     cshape = "None" if shape is None else "(Some (%s, %s))" % (cZ(shape[0]), cZ(shape[1]))
     creg = "None" if region is None else "(Some %s)" % dl(region)
-    term = "c08_case %s %s %s %s %s %s %s %s" % (dl(east.ravel()), dl(north.ravel()), csp, cZ(adj), creg, cshape, cobs, cbool(shape_ok))
-    repro = ("import verde, numpy as np; c=tuple(np.array(a) for a in %r); print(verde.block_split(c, **%r))"
-             % ([c.tolist() for c in coords], kw))
-    inp = {"fn": "block_split", "coordinates": [c.tolist() for c in coords], "spacing": spacing, "shape": shape,
+    term = "c08_case %s %s %s %s %s %s %s %s" % (dl(layouts.logical(east)), dl(layouts.logical(north)), csp, cZ(adj), creg, cshape, cobs, cbool(shape_ok))
+    repro = layouts.repro_args(spec) + "import verde; print(verde.block_split(c, **%r))" % (kw,)
+    inp = {"fn": "block_split", "coordinates": layouts.describe(spec), "spacing": spacing, "shape": shape,
            "region": None if region is None else [float(r) for r in region], "adjust": ADJ[adj]}
     return Case(inp, obs, term, repro, kind, nontrivial=(obs != "ValueError" and east.size > 0))
 
@@ -84,16 +94,6 @@ def geometry(vd, region, spacing, shape, adj):
     dx = (e1[1] - e1[0]) if nc > 1 else 2 * (e1[0] - region[0])
     dy = (n1[1] - n1[0]) if nr > 1 else 2 * (n1[0] - region[2])
     return region[0], dx, nc, region[2], dy, nr
-
-
-def maybe_2d(rnd, arrs):
-    """reshape to 2-D half of the time (when the size allows)"""
-    m = len(arrs[0])
-    if m >= 2 and rnd.random() < 0.5:
-        divs = [d for d in range(1, m + 1) if m % d == 0]
-        r = rnd.choice(divs)
-        return tuple(np.asarray(a, dtype=float).reshape(r, m // r) for a in arrs)
-    return tuple(np.asarray(a, dtype=float) for a in arrs)
 
 
 class Uni:
@@ -197,7 +197,7 @@ def generate(tier, seed):
             lattice = stream == "edges" or rnd.random() < 0.5
             uni = Uni(rnd)
             region, spacing, shape, adj = pick_blocks(rnd, lattice, uni)
-            m = rnd.randint(1, 14)
+            m = rnd.choice([1, 2, 3, 5, 6, 6, 8, 8, 10, 12, 12, 14, 15])
             xs, ys = cloud(rnd, vd, region, spacing, shape, adj, stream, m, uni)
             if stream == "edges":   # a few plain points too
                 x2, y2 = cloud(rnd, vd, region, spacing, shape, adj, "interior", 2, uni)
@@ -205,13 +205,12 @@ def generate(tier, seed):
             arrs = [xs, ys]
             if i % 5 == 0:
                 arrs.append([rnd.uniform(-1e3, 1e3) for _ in xs])   # ignored extra coordinate
-            coords = maybe_2d(rnd, arrs)
-            cases.append(block_case(vd, coords, spacing, adj, region, shape, stream))
+            cases.append(block_case(vd, layouts.arrange(rnd, arrs), spacing, adj, region, shape, stream))
     # region inferred from the cloud
     for i in range(nper):
         lat = rnd.random() < 0.5
         uni = Uni(rnd)
-        m = rnd.randint(2, 14)
+        m = rnd.choice([2, 3, 5, 6, 6, 8, 8, 10, 12, 12, 14, 15])
         if lat:
             xs = [rnd.randint(-12, 12) / 4 for _ in range(m)]
             ys = [rnd.randint(-12, 12) / 4 for _ in range(m)]
@@ -227,26 +226,46 @@ def generate(tier, seed):
         spacing = None if mode == "shape" else (rnd.choice([0.75, 1.0, 2.0, 2.5, 5.0]) if mode == "scalar"
                                                 else (rnd.choice([1.0, 1.5, 3.0]), rnd.choice([1.0, 2.0, 2.5])))
         arrs = [xs, ys] + ([[float(k) for k in range(m)]] if i % 4 == 0 else [])
-        coords = maybe_2d(rnd, arrs)
-        cases.append(block_case(vd, coords, spacing, adj, None, shape, "region-inferred"))
+        cases.append(block_case(vd, layouts.arrange(rnd, arrs), spacing, adj, None, shape, "region-inferred"))
     # the docstring examples
     g = vd.grid_coordinates((-5, 0, 5, 10), spacing=1)
-    cases.append(block_case(vd, g, 2.5, 0, None, None, "docstring"))
-    cases.append(block_case(vd, g, None, 0, None, (4, 2), "docstring"))
-    cases.append(block_case(vd, (g[0].ravel(), g[1].ravel()), (2.5, 1.25), 1, (-5.0, 0.0, 5.0, 10.0), None, "docstring"))
+    cases.append(block_case(vd, layouts.from_arrays(g), 2.5, 0, None, None, "docstring"))
+    cases.append(block_case(vd, layouts.from_arrays(g), None, 0, None, (4, 2), "docstring"))
+    cases.append(block_case(vd, layouts.from_arrays((g[0].ravel(), g[1].ravel())), (2.5, 1.25), 1, (-5.0, 0.0, 5.0, 10.0), None, "docstring"))
+    # the docstring grid (6 x 6) and a non-square 4 x 6 part of it in every memory layout, easting and northing alike and different
+    for ke in layouts.KINDS:
+        for kn in ("C", "F", "Tslice"):
+            spec = [(g[0].tolist(), ke, "float64"), (g[1].tolist(), kn, "float64")]
+            cases.append(block_case(vd, spec, 2.5, 0, None, None, "layout-grid"))
+            spec = [(g[0][:4].tolist(), ke, "float64"), (g[1][:4].tolist(), kn, "float64")]
+            cases.append(block_case(vd, spec, None, 0, (-5.0, 0.0, 5.0, 10.0), (3, 2), "layout-grid"))
+    # integer-valued lattice clouds passed with integer dtypes (1-D and 2-D, all layouts)
+    for i in range(nper // 2):
+        m = rnd.choice([4, 6, 6, 8, 10, 12, 12, 15])
+        xs = [rnd.randint(-6, 6) for _ in range(m)]
+        ys = [rnd.randint(-6, 6) for _ in range(m)]
+        dt = rnd.choice(["int64", "int32"])
+        given = rnd.random() < 0.5
+        reg = (-6.0, 6.0, -6.0, 6.0) if given else None
+        if rnd.random() < 0.5:
+            sp, sh, adj = rnd.choice([1.5, 2.0, 3.0, (2.0, 3.0), (4.0, 2.5)]), None, rnd.choice([0, 1])
+        else:
+            sp, sh, adj = None, rnd.choice([(2, 3), (3, 2), (4, 4), (1, 5)]), 0
+        arrs = [xs, ys] + ([list(range(m))] if i % 3 == 0 else [])
+        cases.append(block_case(vd, layouts.arrange(rnd, arrs, dt=dt, p2d=0.7), sp, adj, reg, sh, "integer-dtype"))
     # empty cloud with a region
-    cases.append(block_case(vd, (np.zeros(0), np.zeros(0)), 1.0, 0, (0.0, 2.0, 0.0, 3.0), None, "degenerate"))
-    cases.append(block_case(vd, (np.array([1.0]), np.array([2.0])), 1.0, 0, None, None, "degenerate"))
-    cases.append(block_case(vd, (np.array([1.0, 1.0]), np.array([2.0, 3.0])), None, 0, None, (2, 3), "degenerate"))
-    cases.append(block_case(vd, (np.array([0.0, 1.0, 3.0]), np.array([2.0, 2.0, 5.0])), None, 0, (1.0, 1.0, 0.0, 4.0), (2, 3), "degenerate"))
+    cases.append(block_case(vd, layouts.from_arrays((np.zeros(0), np.zeros(0))), 1.0, 0, (0.0, 2.0, 0.0, 3.0), None, "degenerate"))
+    cases.append(block_case(vd, layouts.from_arrays((np.array([1.0]), np.array([2.0]))), 1.0, 0, None, None, "degenerate"))
+    cases.append(block_case(vd, layouts.from_arrays((np.array([1.0, 1.0]), np.array([2.0, 3.0]))), None, 0, None, (2, 3), "degenerate"))
+    cases.append(block_case(vd, layouts.from_arrays((np.array([0.0, 1.0, 3.0]), np.array([2.0, 2.0, 5.0]))), None, 0, (1.0, 1.0, 0.0, 4.0), (2, 3), "degenerate"))
     # invalid arguments
     pts = (np.array([0.5, 1.5, 2.5]), np.array([0.5, 0.5, 1.5]))
     reg = (0.0, 3.0, 0.0, 2.0)
     for sp, adj, r, sh in [(None, 0, reg, None), (1.0, 0, reg, (2, 2)), (1.0, 2, reg, None), (None, 2, reg, (2, 3)),
                            ((1.0, 2.0, 3.0), 0, reg, None), (1.0, 0, (3.0, 0.0, 0.0, 2.0), None), (None, 0, (0.0, 3.0, 2.0, 0.0), (2, 2)),
                            (1.0, 0, (0.0, 3.0, 0.0), None), (None, 0, None, None), (1.0, 1, None, (1, 1))]:
-        cases.append(block_case(vd, pts, sp, adj, r, sh, "invalid"))
-    cases.append(block_case(vd, (np.zeros(0), np.zeros(0)), 1.0, 0, None, None, "invalid"))
+        cases.append(block_case(vd, layouts.from_arrays(pts), sp, adj, r, sh, "invalid"))
+    cases.append(block_case(vd, layouts.from_arrays((np.zeros(0), np.zeros(0))), 1.0, 0, None, None, "invalid"))
     return cases
 
 
